@@ -294,7 +294,7 @@ def evaluate__substring(self: XPathFunction, context: ta.ContextType = None) -> 
         else:
             raise self.error('FORG0006', "the second argument must be xs:numeric") from None
     else:
-        start = int(round(start)) - 1
+        start = math.floor(start) + (start - math.floor(start) >= 0.5) - 1  # fn:round(), half up
 
     if len(self) == 2:
         return item[max(start, 0):]
@@ -312,7 +312,7 @@ def evaluate__substring(self: XPathFunction, context: ta.ContextType = None) -> 
         if math.isinf(length):
             return item[max(start, 0):]
         else:
-            stop = start + int(round(length))
+            stop = start + math.floor(length) + (length - math.floor(length) >= 0.5)
             return item[slice(max(start, 0), max(stop, 0))]
 
 
